@@ -1,7 +1,7 @@
 (** C18 — Printed durations, sizes and throughputs are truthful truncations.
     Statements only; each closed by [exact] of a lemma in Proofs/Fmt*.v. *)
 From DivanV Require Import Base.Res Generated.Consts Model.FmtF64 Model.FmtDuration Model.FmtScale
-  Proofs.FmtF64 Proofs.FmtDuration.
+  Proofs.FmtF64 Proofs.FmtDuration Proofs.FmtScale.
 Local Open Scope N_scope.
 
 (** Obligations on the generated constants: the code's tables are the ones the
@@ -122,3 +122,90 @@ Theorem C18_duration_model_sb : forall prec width p, sig_of prec <= 7 ->
   duration_sb (sig_of prec) width p (fmt_duration_with prec width p) = true.
 Proof. exact duration_model_sb. Qed.
 Print Assumptions C18_duration_model_sb.
+
+(** * Byte sizes and throughputs (over exact non-negative rationals [a/b]) *)
+
+(** The same rule with decimal (1000^i) or binary (1024^i) prefixes: the model
+    ([scale_value]'s comparison chain over the generated tables, the division,
+    [format_f64] on the decimal string) prints the numeral of
+    [a / (b * st)] truncated to [max 0 (sig - d)] places and the suffix of the
+    prefix [i] chosen by [C18_scale_largest].  The floating-point arithmetic
+    of the code is idealised as exact here; the implementation is tied to
+    this statement "up to double-precision rounding" by [scaled_sb_approx]
+    ([C18_scaled_sb_approx_sound]) in the correspondence check. *)
+Theorem C18_scaled_trunc : forall f sig a b, b <> 0 -> sig + 1 < 2 ^ 64 ->
+  let '(i, st) := spec_scale (sfmt_binary f) a b in
+  let d := len (digits_of (a / (b * st))) in
+  let k := sig - d in
+  fmt_scaled f sig (VQ a b) = Ok (render_fix (a * 10 ^ k / (b * st)) k ++ [ch_space] ++ spec_suffix f i).
+Proof. exact scaled_trunc. Qed.
+Print Assumptions C18_scaled_trunc.
+
+Theorem C18_scale_largest : forall binary a b, b <> 0 ->
+  let '(i, st) := spec_scale binary a b in
+  let base := if binary then 1024 else 1000 in
+  i <= 5 /\ st = base ^ i /\ (i <> 0 -> st * b <= a) /\ (i <> 5 -> a < base ^ (i + 1) * b).
+Proof. exact spec_scale_largest. Qed.
+Print Assumptions C18_scale_largest.
+
+(** [format_f64] alone (allocation counts): the numeral rule without a unit. *)
+Theorem C18_format_f64_trunc : forall sig a b, b <> 0 -> sig + 1 < 2 ^ 64 ->
+  format_f64 sig (VQ a b) = Ok (trunc_numeral a b sig).
+Proof. exact format_f64_spec. Qed.
+Print Assumptions C18_format_f64_trunc.
+
+(** A zero count prints 0; a zero duration with a non-zero count prints inf. *)
+Theorem C18_zero_inf : forall kind binary f, thr_format kind binary = Ok f ->
+  (forall picos, display_throughput kind 0 picos binary = Ok ([ch_0; ch_space] ++ spec_suffix f 0)) /\
+  (forall count, count <> 0 ->
+     display_throughput kind count 0 binary = Ok ([105; 110; 102; ch_space] ++ spec_suffix f 0)).
+Proof.
+  exact (fun kind binary f Hf =>
+    conj (fun picos => throughput_zero_count kind picos binary f Hf)
+         (fun count Hc => throughput_zero_duration kind count binary f Hf Hc)).
+Qed.
+Print Assumptions C18_zero_inf.
+
+(** Otherwise the throughput is the scaled rule for [count * 10^12 / picos]
+    with 4 significant figures. *)
+Theorem C18_throughput_scaled : forall kind count picos binary f, thr_format kind binary = Ok f ->
+  count <> 0 -> picos <> 0 ->
+  display_throughput kind count picos binary
+  = Ok (spec_scaled_string f 4 (count * 1000000000000) picos).
+Proof. exact throughput_scaled. Qed.
+Print Assumptions C18_throughput_scaled.
+
+(** No panic for any count, any duration, any of the four counter kinds. *)
+Theorem C18_throughput_total : forall kind count picos binary, kind <= 3 ->
+  exists s, display_throughput kind count picos binary = Ok s.
+Proof. exact throughput_total. Qed.
+Print Assumptions C18_throughput_total.
+
+(** Boolean specifications: meaning, the model satisfies them, and the
+    tolerant variant only accepts strings that are the exact rule's string
+    for a rational within relative 2^-50 of the exact value. *)
+Theorem C18_scaled_sb_meaning : forall f sig a b out, b <> 0 ->
+  (scaled_sb f sig a b out = true <-> out = spec_scaled_string f sig a b).
+Proof. exact scaled_sb_spec. Qed.
+Print Assumptions C18_scaled_sb_meaning.
+
+Theorem C18_scaled_model_sb : forall f sig a b, b <> 0 -> sig + 1 < 2 ^ 64 ->
+  match fmt_scaled f sig (VQ a b) with
+  | Ok s => scaled_sb f sig a b s = true /\ scaled_sb_approx f sig a b s = true
+  | Panic _ => False
+  end.
+Proof. exact scaled_model_sb. Qed.
+Print Assumptions C18_scaled_model_sb.
+
+Theorem C18_throughput_model_sb : forall kind count picos binary, kind <= 3 ->
+  throughput_sb kind count picos binary (display_throughput kind count picos binary) = true.
+Proof. exact throughput_model_sb. Qed.
+Print Assumptions C18_throughput_model_sb.
+
+Theorem C18_scaled_sb_approx_sound : forall f sig a b out, b <> 0 ->
+  scaled_sb_approx f sig a b out = true ->
+  exists x y, y <> 0 /\
+    a * (tol - 1) * y <= x * (b * tol) <= a * (tol + 1) * y /\
+    out = spec_scaled_string f sig x y.
+Proof. exact scaled_sb_approx_sound. Qed.
+Print Assumptions C18_scaled_sb_approx_sound.
